@@ -50,6 +50,10 @@ func (f *FilterData) SelectorMatch(item any) bool {
 			continue
 		}
 
+		if itemF.Kind() != reflect.Ptr || itemF.IsNil() {
+			return false
+		}
+
 		itemValue := itemF.Elem().Interface()
 		if itemValue != value {
 			return false
